@@ -1148,6 +1148,7 @@ pub fn c05_record_set(tag: &str) -> Vec<Vec<u8>> {
         "five" => gen(5),
         "thirty-seven" => gen(37),
         "five-hundred" => gen(500),
+        "five-thousand" => gen(5000),
         "long-first" => {
             let mut v = vec![crate::enumr::fill(b"ACGGTCA", 300_000)];
             v.extend(gen(6));
@@ -1219,7 +1220,7 @@ fn c05_config(ctx: &mut Ctx, set: &str, records: &[Vec<u8>], k: usize, container
 }
 
 pub fn c05_lattice(ctx: &mut Ctx) {
-    let sets = ["one", "two", "five", "thirty-seven", "five-hundred", "long-first"];
+    let sets = ["one", "two", "five", "thirty-seven", "five-hundred", "long-first", "five-thousand"];
     let limits = [1usize, 2, 7, 100, 4usize << 30];
     let containers = ["fasta", "fasta-w1", "fasta-w3", "fasta-w60", "fastq", "fasta-gz", "fastq-gz"];
     let delims = [" ", ",", "\t"];
@@ -1231,6 +1232,9 @@ pub fn c05_lattice(ctx: &mut Ctx) {
         let k = if set == "long-first" { 2 } else { 3 };
         // threads x limit x writer
         for threads in 1..=16usize {
+            if set == "five-thousand" && !thorough && ![1usize, 2, 7, 16].contains(&threads) {
+                continue;
+            }
             for writer in ["mmap", "batch"] {
                 for &limit in &limits {
                     for container in containers {
